@@ -23,16 +23,24 @@ def isInv : Ev → Bool
   | .mref _ _ _ => true
   | _ => false
 
+/-- the regenerated width functions: all three positions count characters (`utf8.RuneCountInString`) -/
+theorem width_method (x : String) : width Gen.JavaFull.methodStopWidth x = x.length := by
+  simp [width, Gen.JavaFull.methodStopWidth]
+theorem width_call (x : String) : width Gen.JavaFull.callStopWidth x = x.length := by
+  simp [width, Gen.JavaFull.callStopWidth]
+theorem width_mref (x : String) : width Gen.JavaFull.mrefStopWidth x = x.length := by
+  simp [width, Gen.JavaFull.mrefStopWidth]
+
 /-- what C02 says a recorded call carries, for the event it was recorded from: the callee name, the
     position that selects the callee identifier (line, column .. column + length), the arguments; for a
     creation the created type; for a method reference the method name -/
 def Rec (c : Call) : Ev → Prop
   | .call _ _ callee _ args sl sc el =>
-      c.fn = callee ∧ c.pos = { startLine := sl, startCol := sc, stopLine := el, stopCol := sc + callee.utf8ByteSize } ∧
+      c.fn = callee ∧ c.pos = { startLine := sl, startCol := sc, stopLine := el, stopCol := sc + callee.length } ∧
       c.params = args.map fun a => { typeType := "", typeValue := a }
   | .creator _ _ (i :: _) pos => c.type = "CreatorClass" ∧ c.node = i ∧ c.fn = "" ∧ c.pos = buildPosition pos i
   | .mref _ mn pos => c.type = "lambda" ∧ c.fn = mn ∧
-      c.pos = { startLine := pos.startLine, startCol := pos.startCol, stopLine := pos.startLine, stopCol := pos.startCol + mn.utf8ByteSize }
+      c.pos = { startLine := pos.startLine, startCol := pos.startCol, stopLine := pos.startLine, stopCol := pos.startCol + mn.length }
   | _ => False
 
 /-- `cs` are, one for one and in order, records of the events `es` -/
